@@ -99,7 +99,7 @@ func c03Specs(tier string, seed int) []c03Spec {
 	out = append(out, c03Spec{Kind: "noconfig"}, c03Spec{Kind: "refolder"})
 	// the same line again and again in fresh sessions (the runtime randomises map iteration per execution), with the
 	// batch-line arguments in every order
-	for _, n := range []string{"A", "B", "C", "As"} {
+	for _, n := range []string{"A", "B", "C", "As", "Pa"} {
 		out = append(out, c03Spec{Kind: "repeat", Batch: []string{n}})
 	}
 	// split the heavy explorations (bound >= 2 with 3+ lines) into 8 shards each; heavy ones first so that they start early
@@ -336,7 +336,11 @@ func c03Run(raw json.RawMessage, c *mc.Ctx) {
 	case "repeat":
 		w := buildBatchWorld(root, 45)
 		extra := []string{"c_MAXAMAX=44", "c_TSUM_1=160", "c_TSUM_2=300", "c_KC_3=1.1", "c_PRO_2_1=0.3", "c_PRO_2_2=0.7", "NDeposition=33", "Fertilization=80", "KcFactorBareSoil=0.5"}
-		crop := map[string]string{"A": "PARAM.XWA", "As": "PARAM.XWA", "B": "PARAM.XWB", "C": "PARAM.SM"}[sp.Batch[0]]
+		crop := map[string]string{"A": "PARAM.XWA", "As": "PARAM.XWA", "B": "PARAM.XWB", "C": "PARAM.SM", "Pa": "PARAM.AA"}[sp.Batch[0]]
+		if sp.Batch[0] == "Pa" {
+			// every base parameter at once (they are kept in a map and applied in its iteration order, again at every cut)
+			extra = []string{"c_MAXAMAX=30", "c_INITCONCNBIOM=5.4", "c_MINTMP=3.6", "c_INITCONCNROOT=1.35", "c_WUMAXPF=9", "c_VELOC=0.5", "c_YIFAK=0.7", "c_TSUM_1=133", "NDeposition=33"}
+		}
 		base := strings.Fields(w.Lines[sp.Batch[0]])
 		var first string
 		n := 0
